@@ -23,6 +23,7 @@ ConnectionError variant to the like-named reason (CidsExhausted ↦ TransportErr
 config is installed on both the client and the server side; (5) a connection this side replaces or rejects in the
 tie-break is closed explicitly by this side (C04.2a re-evaluated), so the other side observes the loss.
 (6) a connection handler that fails takes the manager down (join arms re-raise, C08.2 re-evaluated), so no listed connection is left unwatched.
+The transport setter runs on the very config each client-config function returns (not on a copy that is discarded).
 """
 TRUSTED = ["quinn closes a connection whose last handle is dropped and reports closes/idle timeouts to the peer", "std HashMap/RwLock"]
 NOT_DECIDED = ["eventual mutual views / reachability after fault-free periods (liveness over fault schedules)", "detection latency ('no later than the idle timeout')",
